@@ -926,6 +926,14 @@ func (p *detachedPlay) PerOp(w *World, root *Node) error {
 	// mutate a detached container through its (stale) handle, re-attach it, or dispose of it
 	d := w.detached[w.rng.Intn(len(w.detached))]
 	switch roll := w.rng.Intn(100); {
+	case roll < 6:
+		// bulk pop through the kept handle (for a handle kept stale this may be the first mutation after the detachment)
+		p.staleMut++
+		w.stats.Extra["bulk-pops-of-detached-containers"]++
+		if d.Kind == KArr {
+			return w.OpArrayPop(d)
+		}
+		return w.OpMapPop(d)
 	case roll < 70:
 		p.staleMut++
 		if w.opCount-p.detachedAt[d] > 3 {
